@@ -373,6 +373,12 @@ if scenario == "grow":
     import sky130_hdl21
     attempt("default_after_second_registered", lambda m: h.pdk.compile(m))
     out["default_is_none"] = h.pdk.default() is None if hasattr(h.pdk, "default") else "n/a"
+elif isinstance(scenario, list):
+    # one PDK registered; the four ways of naming it, in the given order: every call must compile, whatever came before
+    ways = {"default": lambda m: h.pdk.compile(m), "by_name": lambda m: h.pdk.compile(m, pdk="hdl21.pdk.sample_pdk.pdk"),
+            "by_module": lambda m: h.pdk.compile(m, pdk=sample.pdk), "by_package": lambda m: h.pdk.compile(m, pdk=sample)}
+    for k, w in enumerate(scenario):
+        attempt(f"{k}:{w}", ways[w])
 elif scenario == "one":
     attempt("default", lambda m: h.pdk.compile(m))
     attempt("by_name", lambda m: h.pdk.compile(m, pdk="hdl21.pdk.sample_pdk.pdk"))
@@ -460,6 +466,18 @@ def run(ctx):
             ctx.violation(dict(model="", pdk="registry", prim="-", select="one:" + k, what=str(r1.get(k))[:40], exc=""), dict(registry="one", results=r1), f"hdl21.pdk.compile {k}: {r1.get(k)}")
     if not str(r1.get("bad_name", "")).startswith("raised") or any(b in r1.get("bad_name", "") for b in BAD_EXC):
         ctx.violation(dict(model="", pdk="registry", prim="-", select="one:bad_name", what=str(r1.get("bad_name"))[:40], exc=""), dict(registry="one", results=r1), "unknown PDK name not rejected descriptively")
+    # every order of the four ways of naming the one registered PDK (quick: every ordered pair)
+    import itertools as _it
+
+    ways = ["default", "by_name", "by_module", "by_package"]
+    orders = [list(o) for o in (_it.permutations(ways, 2) if ctx.quick else _it.permutations(ways))]
+    for order, ro in zip(orders, ctx.pmap(registry_scenario, orders, chunk=1)):
+        ctx.count(states=1, transitions=len(order), traces_validated_against_impl=1)
+        badk = [k for k in sorted(ro) if ro[k] != "compiled"]
+        if badk or len(ro) != len(order):
+            ctx.violation(dict(model="", pdk="registry", prim="-", select="order:" + (badk[0] if badk else "?"), what=str(ro.get(badk[0]) if badk else ro)[:40], exc=""),
+                          dict(registry=order, results=ro), f"with one PDK registered, hdl21.pdk.compile calls in the order {order} gave {ro}")
+    ctx.fam("registry_orders", orders=len(orders))
     r2 = registry_scenario("several")
     ctx.count(states=len(r2), transitions=len(r2), traces_validated_against_impl=len(r2))
     if not str(r2.get("default_ambiguous", "")).startswith("raised RuntimeError"):
